@@ -28,4 +28,4 @@ NOT_APPLICABLE = {
 }
 
 # properties whose check has been run green on the unchanged tree (mkmanifest claims only these)
-READY = {"C08", "C11", "C14"}
+READY = {"C04", "C05", "C06", "C08", "C09", "C11", "C12", "C13", "C14", "C18"}
